@@ -208,21 +208,49 @@ def print_rules(ctx, w, S, R):
                       sample={"site": key, "guards": [(w.tstr(f, c), v) for c, v in gs]})
             rt = WD.strip_names(T.operand(cs.term["args"][1], cs.point))
             ctx.check(rt == row_t, "Y3", key + ":row", "the soft-wrap mark is set on row %s instead of the cursor row" % w.tstr(f, rt), loc=w.site_loc(cs))
-            # leaves the row afterwards on every path
+            # leaves the row afterwards on every path (a callee counts only if IT scrolls / moves down on every one of its paths)
+            def always_leaves(g, depth=0):
+                if depth > 4 or g not in w.bodies:
+                    return False
+                gb = w.body(g)
+                GT = w.terms(g)
+                lv = set()
+                for c3 in E.call_sites(g):
+                    if c3.callee == up:
+                        lv.add(c3.point)
+                    elif c3.local and c3.callee in S.terminal_scope and always_leaves(c3.callee, depth + 1):
+                        lv.add(c3.point)
+                    elif c3.local and len(c3.term["args"]) == 2 and WD.strip_names(GT.operand(c3.term["args"][1], c3.point)) == ("binop", "Add", row_t, ("const", 1)) \
+                            and ("arg1", cur, "row") in E.summaries[c3.callee].W:
+                        lv.add(c3.point)
+                return bool(lv) and gb.every_path_to_return_hits((0, 0), lv, include_start=True)
             leave = set()
             for c2 in E.call_sites(f):
                 if not c2.local:
                     continue
-                if up in E.reachable_fns([c2.callee]) and c2.callee in S.terminal_scope:
+                if c2.callee in S.terminal_scope and always_leaves(c2.callee):
                     leave.add(c2.point)
                 if len(c2.term["args"]) == 2 and WD.strip_names(T.operand(c2.term["args"][1], c2.point)) == ("binop", "Add", row_t, ("const", 1)) \
                         and ("arg1", cur, "row") in E.summaries[c2.callee].W:
                     leave.add(c2.point)
             okl = b.every_path_to_return_hits(cs.point, leave)
+            why_sem = ""
+            if not (okl and g and rt == row_t):
+                # shape not recognised (e.g. the mark hoisted in front of a helper that decides scroll / move / stay):
+                # decide the clause semantically on small symbolic terminals
+                try:
+                    from rules import hinterp
+                    oks, info = hinterp.wrap_mark_semantics(w, S, R, h)
+                    if oks:
+                        okl = True
+                    else:
+                        why_sem = " [" + str(info) + "]"
+                except Exception as ex:
+                    why_sem = " [semantic evaluation not possible: %s]" % (ex,)
             ctx.check(okl, "Y3", key + ":leaves", "after marking the row soft-wrapped some path neither scrolls the region nor moves the cursor down: a row the cursor never left is marked as continuing on the next row "
-                      "(e.g. the last row when it lies below the scroll region)", loc=w.site_loc(cs), sample={"site": key, "leave_sites": len(leave)})
+                      "(e.g. the last row when it lies below the scroll region)" + why_sem, loc=w.site_loc(cs), sample={"site": key, "leave_sites": len(leave)})
             # no write to the cursor row between the guard and the mark
-        ctx.floor("Y3", 4, "wrap-mark obligations")
+        ctx.floor("Y3", 3, "wrap-mark obligations")
 
     # ---- Y4 wrap pending ------------------------------------------------------------------------------------------
     ctx.rule("Y4", "wrap-pending is set only when auto-wrap is on, right after the column was set to cols")
